@@ -286,6 +286,39 @@ func Dyn(seed uint64, n int) *Out {
 		o.Kinds["schema reused with another destination layout"]++
 	}
 	// front ends: JSON documents of every top-level shape through zjson
+	// documents nested deeper than any fixed-size table or pooled buffer: a schema 40 structs deep, then
+	// ordinary calls on whatever the deep call left in the pools
+	func() {
+		var schema z.ZogSchema = z.String().Min(5)
+		t := reflect.TypeOf("")
+		var data any = "x"
+		for i := 0; i < 40; i++ {
+			schema = z.Struct(z.Schema{"n": schema})
+			t = reflect.StructOf([]reflect.StructField{{Name: "N", Type: t}})
+			data = map[string]any{"n": data}
+		}
+		for round := 0; round < 3; round++ {
+			panicked := ""
+			func() {
+				defer func() {
+					if rec := recover(); rec != nil {
+						panicked = fmt.Sprint(rec)
+						internals.ClearPools()
+					}
+				}()
+				parseAny(schema, data, reflect.New(t).Interface())
+				var str string
+				z.String().Min(3).Parse("x", &str)
+				var dest dynDest
+				dynSchema().Parse(map[string]any{"a": "x"}, &dest)
+			}()
+			if panicked != "" {
+				o.Failures = append(o.Failures, Failure{ID: len(o.Cases), Tags: []string{"panic"}, Detail: "a document nested 40 levels deep, then ordinary calls (round " + fmt.Sprint(round) + "): panic: " + panicked})
+				break
+			}
+		}
+		o.Kinds["deep document"]++
+	}()
 	for _, doc := range []string{`{}`, `{"a":"x"}`, `null`, ``, `[]`, `[1]`, `1`, `"s"`, `true`, `{"a":`, `{"a":null,"b":{}}`, `{"a":{"b":{"c":[1,{"d":null}]}}}`, ` `, "\xff", `{"a":1e400}`,
 		`{"aVeryLongFieldNameThatIsLongerThanThirtyTwoBytes":"x"}`, `{"a":"\ud800"}`} {
 		schema := dynSchema()
@@ -326,4 +359,9 @@ func describe(v reflect.Value) string {
 		return "(GStruct [" + strings.Join(fs, "; ") + "])"
 	}
 	return "GOther"
+}
+
+// parseAny calls Parse on a schema of any complex type (the method takes the destination as `any`).
+func parseAny(schema z.ZogSchema, data any, dest any) {
+	reflect.ValueOf(schema).MethodByName("Parse").Call([]reflect.Value{reflect.ValueOf(&data).Elem(), reflect.ValueOf(dest)})
 }
